@@ -177,6 +177,7 @@ def jobs(tier):
         out.append({"name": "unassigned/%s" % method, "kind": "unassigned", "method": method, "plaintexts": b["plaintexts"], "formats": b["formats"]})
         out.append({"name": "empty-lists/%s" % method, "kind": "empty-lists", "method": method})
         out.append({"name": "late-key-directory/%s" % method, "kind": "late-keydir", "method": method})
+        out.append({"name": "dict-and-late/%s" % method, "kind": "dict-and-late", "method": method})
     return out
 
 
@@ -410,6 +411,101 @@ def _late_keydir(job, ctx):
     ctx.traces += 1
 
 
+def _dict_and_late(job, ctx):
+    """secrets held as values of a typed dict (root, nested section with its own key file, items of a list of
+    configurations) and a secret field declared under a key that the configuration first held as an undeclared
+    (dynamic) value: in every format the output holds no plaintext, carries method + ciphertext that the reference
+    cipher inverts under the section's key file, and loads back"""
+    import cincoconfig as cc
+    tmp = ctx.tmp
+    write_keys(tmp)
+    method, only = job["method"], job.get("only")
+    P, Q = PLAINTEXTS["long40"], PLAINTEXTS["padded"]
+    for where in ("dict-root", "dict-sub-ownkey", "dict-in-item", "late-over-dynamic", "late-over-dynamic-sub"):
+        for fmt in ("json", "yaml", "xml", "bson", "pickle"):
+            ident = [where, fmt]
+            if only is not None and only != ident:
+                continue
+            s = cc.Schema(dynamic=True)
+            s.plain = cc.StringField(default="visible")
+            s.sub = cc.Schema(dynamic=True)
+            s.sub.plain = cc.StringField(default="v")
+            item = cc.Schema()
+            item.d = cc.DictField(cc.StringField(), cc.SecureField(method=method))
+            s.items = cc.ListField(item)
+            s.d = cc.DictField(cc.StringField(), cc.SecureField(method=method))
+            s.sub.d = cc.DictField(cc.StringField(), cc.SecureField(method=method))
+            cfg = cc.Config(s, key_filename=keypath(tmp, "root"))
+            expect = {}      # tree path -> (plaintext, key name)
+            if where == "dict-root":
+                cfg.d = {"a": P}; cfg.d["b"] = Q
+                expect = {("d", "a"): (P, "root"), ("d", "b"): (Q, "root")}
+            elif where == "dict-sub-ownkey":
+                cfg.sub._key_filename = keypath(tmp, "sub")
+                cfg.sub.d = {"a": P}; cfg.sub.d.update(b=Q)
+                expect = {("sub", "d", "a"): (P, "sub"), ("sub", "d", "b"): (Q, "sub")}
+            elif where == "dict-in-item":
+                cfg.items = [{"d": {"a": P}}]; cfg.items[0].d["b"] = Q
+                expect = {("items", 0, "d", "a"): (P, "root"), ("items", 0, "d", "b"): (Q, "root")}
+            elif where == "late-over-dynamic":
+                cfg.late = "earlier-undeclared"
+                s.late = cc.SecureField(method=method)
+                cfg.late = P
+                expect = {("late",): (P, "root")}
+            else:
+                cfg.sub._key_filename = keypath(tmp, "sub")
+                cfg.sub.late = "earlier-undeclared"
+                s.sub.late = cc.SecureField(method=method)
+                cfg.sub.late = P
+                expect = {("sub", "late"): (P, "sub")}
+            case = _case(job, ident)
+            fpb = "C03|dict-and-late|%s|%s|%s|" % (where, method, fmt)
+            ctx.transitions += 1
+            try:
+                data = cfg.dumps(fmt)
+                tree = cfg.to_tree()
+            except Exception as exc:  # noqa
+                ctx.violation(fpb + "dumps-raises", "saving raised %r" % (exc,), case)
+                continue
+            ctx.case(("dict-and-late", where, method, fmt), "dict-and-late:ok", True)
+            for pt in (P, Q):
+                raw = pt.encode()
+                if any(n in data for n in (raw, base64.b64encode(raw), raw.hex().encode(), json.dumps(pt).encode()[1:-1])):
+                    ctx.violation(fpb + "plaintext-in-output", "the %s document contains the plaintext of a secret" % fmt, case)
+                    break
+            for path, (pt, keyname) in expect.items():
+                node = tree
+                try:
+                    for k in path:
+                        node = node[k]
+                except Exception:  # noqa
+                    node = None
+                if not (isinstance(node, dict) and node.get("method") in ("aes", "xor") and isinstance(node.get("ciphertext"), str)):
+                    ctx.violation(fpb + "not-method-ciphertext", "the rendered secret at %r is %s, not {method, ciphertext}" % (path, type(node).__name__), case)
+                    continue
+                try:
+                    got = ref_decrypt(node["method"], KEYS[keyname], base64.b64decode(node["ciphertext"]))
+                except Exception:  # noqa
+                    got = None
+                if got != pt.encode():
+                    ctx.violation(fpb + "wrong-key-or-cipher", "the ciphertext at %r does not decrypt to the secret under key file %r" % (path, keyname), case)
+            try:
+                fresh = cc.Config(s, key_filename=keypath(tmp, "root"))
+                if "sub" in where:
+                    fresh.sub._key_filename = keypath(tmp, "sub")
+                fresh.loads(data, fmt)
+                for path, (pt, _) in expect.items():
+                    node = fresh
+                    for k in path:
+                        node = node[k]
+                    if node != pt:
+                        ctx.violation(fpb + "reload-differs", "after reload the secret at %r differs" % (path,), case)
+            except BaseException as exc:  # noqa
+                ctx.violation(fpb + "reload-raises", "loading the document back raised %s" % type(exc).__name__, case)
+    ctx.states += 1
+    ctx.traces += 1
+
+
 def run_job(job, ctx):
     single = job.get("single")
     if single:
@@ -420,6 +516,8 @@ def run_job(job, ctx):
         return _unassigned(job, ctx)
     if job.get("kind") == "empty-lists":
         return _empty_lists(job, ctx)
+    if job.get("kind") == "dict-and-late":
+        return _dict_and_late(job, ctx)
     only = job.get("only")
     CTMODE[0] = job.get("ctmode", "class")
     if only is None and job.get("new_process") or (only is not None and only[1] == ["new-process"]):
